@@ -69,8 +69,16 @@ def check_c06(tier):
 def check_c14(tier):
     uses, stats = gen_syn()
     res = synx.replay(uses)
+    # the numba extension spells the synonyms out once more (attribute overloads, the vector.obj factory): the momentum
+    # attributes next to their geometric names and every spelling of the constructor, compiled against the interpreter
+    from . import coords, numbax
+
+    sigs = [s for n in (2, 3, 4) for s in coords.signatures(n)]
+    nitems = [("momattr", s) for s in sigs] + [("ctor", s) for i, s in enumerate(sigs) if tier == "thorough" or (i + common.seed()) % 2 == 0 or len(s) == 3]
+    nres = numbax.replay_items(nitems)
     v = common.Verdicts("C14")
     v.extend(res["records"])
+    v.extend(nres["records"])
     nviol, nknown = v.finish()
     if len(uses) < 4000 or res["calls"] < 10000:
         raise RuntimeError("vacuous run")
